@@ -45,40 +45,55 @@ func Corrupt(proto string, frame []byte, ch *sim.Choices) ([]byte, string) {
 	type lenField struct {
 		off, size int
 		name      string
+		extra     []uint64 // further values worth trying for this field
 	}
 	var fields []lenField
 	switch proto {
 	case "bolt", "boltpp":
 		if len(f) >= 22 && (f[1] == 1 || f[1] == 2) {
-			fields = []lenField{{14, 2, "classLen"}, {16, 2, "headerLen"}, {18, 4, "contentLen"}}
+			fields = []lenField{{off: 14, size: 2, name: "classLen"}, {off: 16, size: 2, name: "headerLen"}, {off: 18, size: 4, name: "contentLen"}}
 		} else if len(f) >= 20 {
-			fields = []lenField{{12, 2, "classLen"}, {14, 2, "headerLen"}, {16, 4, "contentLen"}}
+			fields = []lenField{{off: 12, size: 2, name: "classLen"}, {off: 14, size: 2, name: "headerLen"}, {off: 16, size: 4, name: "contentLen"}}
 		}
 	case "boltv2":
 		if len(f) >= 24 && (f[2] == 1 || f[2] == 2) {
-			fields = []lenField{{16, 2, "classLen"}, {18, 2, "headerLen"}, {20, 4, "contentLen"}}
+			fields = []lenField{{off: 16, size: 2, name: "classLen"}, {off: 18, size: 2, name: "headerLen"}, {off: 20, size: 4, name: "contentLen"}}
 		} else if len(f) >= 22 {
-			fields = []lenField{{14, 2, "classLen"}, {16, 2, "headerLen"}, {18, 4, "contentLen"}}
+			fields = []lenField{{off: 14, size: 2, name: "classLen"}, {off: 16, size: 2, name: "headerLen"}, {off: 18, size: 4, name: "contentLen"}}
 		}
 	case "dubbo-thrift":
 		if len(f) >= 4+9+4 {
-			fields = []lenField{{0, 4, "messageLen"}, {6, 4, "innerMessageLen"}, {10, 2, "headerLen"}, {13, 4, "serviceNameLen"}}
+			fields = []lenField{{off: 0, size: 4, name: "messageLen"}, {off: 6, size: 4, name: "innerMessageLen"}, {off: 10, size: 2, name: "headerLen"}, {off: 13, size: 4, name: "serviceNameLen"}}
 		}
 	case "tars":
 		if len(f) >= 8 {
-			fields = []lenField{{0, 4, "totalLen"}, {4, 1, "firstHead"}, {5, 1, "firstValue"}}
+			fields = []lenField{{off: 0, size: 4, name: "totalLen"}, {off: 4, size: 1, name: "firstHead"}, {off: 5, size: 1, name: "firstValue"}}
 		}
 	case "dubbo":
 		if len(f) >= 17 {
-			fields = []lenField{{12, 4, "dataLen"}, {16, 1, "hessianStringLen"}, {2, 1, "flag"}}
+			fields = []lenField{{off: 12, size: 4, name: "dataLen"}, {off: 16, size: 1, name: "hessianStringLen"}, {off: 2, size: 1, name: "flag"}}
 		}
 	case "http2":
-		// frame is the start of a connection: preface, then frames
+		// frame is the start of a connection: preface, then frames. First a legal reshaping: HEADERS
+		// and DATA frames may carry padding, HEADERS a priority block.
+		f = h2Reshape(f, pick)
 		for off, i := 24, 0; off+9 <= len(f) && i < 6; i++ {
 			l := int(f[off])<<16 | int(f[off+1])<<8 | int(f[off+2])
-			fields = append(fields, lenField{off, 3, "frameLen#" + itoa(uint64(i))}, lenField{off + 3, 1, "frameType#" + itoa(uint64(i))}, lenField{off + 5, 4, "streamID#" + itoa(uint64(i))})
-			if l > 0 && f[off+3] == 1 {
-				fields = append(fields, lenField{off + 9, 1, "hpackFirstByte"})
+			fields = append(fields, lenField{off: off, size: 3, name: "frameLen#" + itoa(uint64(i))}, lenField{off: off + 3, size: 1, name: "frameType#" + itoa(uint64(i))},
+				lenField{off: off + 4, size: 1, name: "flags#" + itoa(uint64(i)), extra: []uint64{0x8, 0x20, 0x28, 0x2c, 0x4}}, lenField{off: off + 5, size: 4, name: "streamID#" + itoa(uint64(i))})
+			typ, flags := f[off+3], f[off+4]
+			hp := off + 9
+			if l > 0 && (typ == 0 || typ == 1) && flags&0x8 != 0 {
+				// the pad length, around every boundary of the payload that follows it
+				L := uint64(l)
+				fields = append(fields, lenField{off: hp, size: 1, name: "padLen#" + itoa(uint64(i)), extra: []uint64{L - 1, L, L - 2, L - 5, L - 6, L - 7, L - 3, L - 4}})
+				hp++
+			}
+			if typ == 1 && flags&0x20 != 0 {
+				hp += 5
+			}
+			if l > 0 && typ == 1 && hp < off+9+l {
+				fields = append(fields, lenField{off: hp, size: 1, name: "hpackFirstByte"})
 			}
 			off += 9 + l
 		}
@@ -101,7 +116,7 @@ func Corrupt(proto string, frame []byte, ch *sim.Choices) ([]byte, string) {
 		fl := fields[pick("corrupt_field", len(fields))]
 		truth := rd(fl.off, fl.size)
 		max := uint64(1)<<(8*fl.size) - 1
-		vals := []uint64{0, 1, 2, 3, max, truth + 1, truth - 1, max - 1, 1 << 31, 1<<31 - 1}
+		vals := append([]uint64{0, 1, 2, 3, max, truth + 1, truth - 1, max - 1, 1 << 31, 1<<31 - 1}, fl.extra...)
 		v := vals[pick("corrupt_val", len(vals))] & max
 		wr(fl.off, fl.size, v)
 		return f, fl.name + "<-" + itoa(v)
@@ -125,6 +140,51 @@ func Corrupt(proto string, frame []byte, ch *sim.Choices) ([]byte, string) {
 		ins := ch.Bytes("work", 1+pick("ins_len", 3))
 		return append(append(append([]byte(nil), f[:i]...), ins...), f[i:]...), "inserted@" + itoa(uint64(i))
 	}
+}
+
+// h2Reshape rewrites the HEADERS / DATA frames of a connection start into equivalent frames with
+// padding and (HEADERS) a priority block — still a valid byte stream.
+func h2Reshape(f []byte, pick func(string, int) int) []byte {
+	shape := pick("h2shape", 4) // 0 as built, 1 padded, 2 priority, 3 both
+	if shape == 0 || len(f) < 24 {
+		return f
+	}
+	out := append([]byte(nil), f[:24]...)
+	for off := 24; off < len(f); {
+		if off+9 > len(f) {
+			out = append(out, f[off:]...)
+			break
+		}
+		l := int(f[off])<<16 | int(f[off+1])<<8 | int(f[off+2])
+		end := off + 9 + l
+		if end > len(f) {
+			out = append(out, f[off:]...)
+			break
+		}
+		typ, flags := f[off+3], f[off+4]
+		payload := f[off+9 : end]
+		if (typ == 0 || typ == 1) && flags&0x28 == 0 {
+			var np []byte
+			pad := 0
+			if shape&1 != 0 {
+				pad = []int{0, 1, 3, 7}[pick("h2pad", 4)]
+				np = append(np, byte(pad))
+				flags |= 0x8
+			}
+			if typ == 1 && shape&2 != 0 {
+				np = append(np, 0, 0, 0, 0, byte(pick("h2weight", 256))) // depends on stream 0, a weight
+				flags |= 0x20
+			}
+			np = append(np, payload...)
+			np = append(np, make([]byte, pad)...)
+			payload = np
+		}
+		out = append(out, byte(len(payload)>>16), byte(len(payload)>>8), byte(len(payload)), typ, flags)
+		out = append(out, f[off+5:off+9]...)
+		out = append(out, payload...)
+		off = end
+	}
+	return out
 }
 
 func itoa(v uint64) string {
